@@ -310,3 +310,40 @@ CHECKS["C13"] = dict(
     level_text="Every root of the stated universes is searched by the real engine code with its on-demand table and compared with exact distance to mate, including all clocks around the 50-move boundary.",
     level_note="Trusted: the C12-validated table generator used as reference; Threads > 1 not covered here.",
 )
+
+# ------------------------------------------------------------------------------------------ C04
+def c04_parts(tier, seed):
+    q = tier == "quick"
+    T = "c04_mates"
+    if q:
+        return [
+            P("tb-net1", T, "fast", ["--part", "tb", "--names", "KQvK,KRvK", "--depths", "1,2,3,4", "--tt", "512,65536", "--null", "1,0"], require=["verified_mate_claims", "verified_mated_claims", "mate_in_one_roots"], deadline_frac=0.9),
+            P("tb-deep", T, "fast", ["--part", "tb", "--names", "KQvK,KvKR", "--depths", "6", "--tt", "512", "--null", "1", "--stride", 13], require=["verified_mate_claims"], deadline_frac=0.9),
+            P("tb-net0", "c04_mates_net0", "fast", ["--part", "tb", "--names", "KRvK", "--depths", "2,4", "--tt", "512", "--null", "1", "--stride", 2], require=["verified_mate_claims"], deadline_frac=0.9),
+            P("solver", T, "fast", ["--part", "solver", "--perft", 2, "--maxmate", 2, "--depths", "1,2,3,4,5", "--tt", "512,65536", "--null", "1,0"], require=["mate_in_one_roots", "verified_mate_claims"], deadline_frac=0.9),
+            P("tb-asan", T, "seq", ["--part", "tb", "--names", "KQvK", "--depths", "1,2,3", "--tt", "512", "--null", "1", "--stride", 16], require=["verified_mate_claims"], deadline_frac=0.9),
+        ]
+    return [
+        P("tb-net1", T, "fast", ["--part", "tb", "--names", "KQvK,KRvK,KvKQ,KvKR", "--depths", "1,2,3,4,6", "--tt", "512,65536", "--null", "1,0"], require=["verified_mate_claims", "verified_mated_claims", "mate_in_one_roots"], deadline_frac=0.95),
+        P("tb-deep", T, "fast", ["--part", "tb", "--names", "KQvK,KRvK,KvKR", "--depths", "8,10,12", "--tt", "512,65536", "--null", "1", "--stride", 3], require=["verified_mate_claims"], deadline_frac=0.95),
+        P("tb-4men", T, "fast", ["--part", "tb", "--names", "KBBvK,KBNvK,KQvKR,KRvKN", "--depths", "2,4,6", "--tt", "512", "--null", "1", "--stride", 97], require=["verified_mate_claims"], deadline_frac=0.95),
+        P("tb-net0", "c04_mates_net0", "fast", ["--part", "tb", "--names", "KQvK,KRvK", "--depths", "1,2,3,4,6", "--tt", "512", "--null", "1,0"], require=["verified_mate_claims"], deadline_frac=0.95),
+        P("solver", T, "fast", ["--part", "solver", "--perft", 3, "--maxmate", 3, "--depths", "1,2,3,4,5,6,7", "--tt", "512,65536", "--null", "1,0"], require=["mate_in_one_roots", "verified_mate_claims"], deadline_frac=0.95),
+        P("tb-asan", T, "seq", ["--part", "tb", "--names", "KQvK,KRvK", "--depths", "1,2,3,4", "--tt", "512", "--null", "1", "--stride", 4], require=["verified_mate_claims"], deadline_frac=0.95),
+    ]
+
+CHECKS["C04"] = dict(
+    parts=c04_parts,
+    rule="states = searches executed ((root, depth, table size, null-move, network) tuples, distinct by construction); transitions = PV lines examined; non-trivial = the search reported at least one mate score",
+    alphabet="roots: every legal placement with the white king in the a1-d1-d4 triangle of KQvK, KRvK (and more classes / strides per tier), both sides to move; positions of the seed trees "
+             "in which the independent AND/OR solver finds a forced mate; configurations: depth x {512-entry, 64k-entry table} x UseNullMove x synthetic network; tables persist across roots (histories)",
+    oracle="exact distance to mate from a generated table (C12-checked) resp. the AND/OR solver: every exact or lower-bound 'mate N>0' line => mate can be forced within N; the delivered best move keeps a forced mate; "
+           "a completed search ending in 'mate -N' => the side is mated within N; mate in one exists => final 'mate 1' and a mating best move at every depth",
+    bound=dict(quick="KQvK/KRvK all triangle placements at depth 1-4 (2 table sizes, null on/off), depth 6 on every 13th, solver roots within 2 plies of 30 seeds with mate <= 2",
+               thorough="4 three-men classes to depth 6, depth 8-12 on every 3rd, four 4-men classes thinned, solver roots within 3 plies with mate <= 3"),
+    assumptions=["claims whose distance exceeds what the oracle can verify (non-tablebase positions, N > bound) are counted as unverified, never as pass",
+                 "depth-limited searches do not build or probe the on-demand tablebase (minProbeDepth = 100): the search's own mate bookkeeping is exercised", "Threads 1"],
+    technique="bounded-exhaustive enumeration of roots x configurations on the real search, exact-DTM and AND/OR-solver reference",
+    level_text="Every root of the stated universes is searched by the real code in every configuration of the lattice and every mate announcement is checked against exact game-theoretic values.",
+    level_note="Trusted: the C12-validated generator, the independent AND/OR solver.",
+)
